@@ -13,8 +13,8 @@ import (
 
 	"github.com/sheerbytes/sheerbytes/internal/transfer"
 	quic "github.com/sheerbytes/sheerbytes/internal/verif/venv/vquic"
-	vrt "github.com/sheerbytes/sheerbytes/internal/verif/vrt"
 	"github.com/sheerbytes/sheerbytes/internal/verif/vlib"
+	vrt "github.com/sheerbytes/sheerbytes/internal/verif/vrt"
 )
 
 // ---- C02: no false success under faults ----
@@ -30,15 +30,15 @@ type FaultSpec struct {
 func (f FaultSpec) String() string { return fmt.Sprintf("%s@%s+%d/%d", f.Kind, f.Stream, f.Pos, f.Arg) }
 
 type faultObs struct {
-	counts   map[string]int64
-	order    []string
-	arm      *FaultSpec
-	fired    bool
-	cancelS  context.CancelFunc
-	cancelR  context.CancelFunc
-	p        *Prepared
-	firedAt  int64
-	log      map[string][]byte // bytes per stream direction (baseline run only)
+	counts  map[string]int64
+	order   []string
+	arm     *FaultSpec
+	fired   bool
+	cancelS context.CancelFunc
+	cancelR context.CancelFunc
+	p       *Prepared
+	firedAt int64
+	log     map[string][]byte // bytes per stream direction (baseline run only)
 }
 
 // payloadOrCRC reports whether byte position pos of a data stream (given its baseline bytes) lies
